@@ -282,7 +282,7 @@ impl Prop for C14 {
     }
 
     fn n_indices(&self, tier: Tier) -> u64 {
-        matrix().len() as u64 + 4000 * tier.scale()
+        matrix().len() as u64 + 20000 * tier.scale()
     }
 
     fn run_index(&self, idx: u64, seed: u64, _tier: Tier, rt: &mut Rt) -> Vec<Violation> {
